@@ -125,18 +125,41 @@ def check_props(pid: str, timeout=900):
 FORBIDDEN = re.compile(r"\b(Admitted|admit|Axiom|Parameter|Conjecture|Admit Obligations)\b|Unset Guard|bypass_check|type-in-type|impredicative-set")
 
 
-def grep_forbidden():
-    """Source-level scan of the whole development for declared axioms / disabled checks."""
+def closure(rel):
+    """Transitive `From IPV8V Require ...` closure of a .v file (relative paths)."""
+    seen, todo = [], [rel]
+    while todo:
+        r = todo.pop()
+        if r in seen or not os.path.exists(os.path.join(COQ, r)):
+            continue
+        seen.append(r)
+        txt = open(os.path.join(COQ, r)).read()
+        for m in re.finditer(r"From\s+IPV8V\s+Require\s+(?:Import|Export)?\s*([^.]*(?:\.[A-Za-z_][^.\s]*)*)\.", txt):
+            for mod in m.group(1).split():
+                if re.fullmatch(r"[A-Za-z_][\w]*(\.[A-Za-z_][\w]*)+", mod):
+                    todo.append(mod.replace(".", "/") + ".v")
+    return seen
+
+
+def grep_forbidden(pid=None):
+    """Source-level scan (of the property's dependency closure, or everything) for declared axioms /
+    disabled checks; Variable/Hypothesis are allowed only inside a Section."""
     hits = []
-    for rel in vfiles():
+    files = closure("props/%s.v" % pid) if pid else vfiles()
+    for rel in files:
         txt = open(os.path.join(COQ, rel)).read()
         txt = re.sub(r"\(\*.*?\*\)", "", txt, flags=re.S)
         for i, line in enumerate(txt.split("\n"), 1):
             if FORBIDDEN.search(line):
                 hits.append("%s:%d: %s" % (rel, i, line.strip()))
-            if re.match(r"\s*(Variable|Variables|Hypothesis|Hypotheses)\b", line):
-                # allowed only inside a Section: checked by counting Section/End nesting
-                pass
+        depth = 0
+        for i, line in enumerate(txt.split("\n"), 1):
+            if re.match(r"\s*Section\s+\w+", line):
+                depth += 1
+            elif re.match(r"\s*End\s+\w+\s*\.", line) and depth > 0:
+                depth -= 1   # (Module ... End also lands here; modules are not used in this development)
+            elif depth == 0 and re.match(r"\s*(Variable|Variables|Hypothesis|Hypotheses|Context)\b", line):
+                hits.append("%s:%d: %s (outside a Section)" % (rel, i, line.strip()))
     return hits
 
 
